@@ -213,6 +213,19 @@ def exact_jobs(chk, pid, quick, rng, cases):
             prm = bc.default_params(kind, W, B, allow=False)
             jobs.append((kind, prm, stream, cuts, pid == "C03" or n_ % 5 == 0, int(rng.integers(0, 50)),
                          kind in bc.THIN and n_ % 3 == 1))
+        # a burst of requests that exhausts the budget, then ONE long chunk with a request at its start and none
+        # after it: the estimate at the end of that chunk is far below the limit although the request arrives
+        # while nothing is left (a decision taken for the chunk as a whole differs from the per-instance one)
+        n_ = 0
+        for W, B in grid:
+            L = bc.max_len(kind, W)
+            for k in (1, 2, 3, 4):
+                for req in (1, 2):
+                    n_ += 1
+                    stream = [16] * k + [16] * req + [0] * (L - k - req)
+                    prm = bc.default_params(kind, W, B, allow=False)
+                    jobs.append((kind, prm, stream, [k], pid == "C03" or n_ % 5 == 0, int(rng.integers(0, 50)),
+                                 kind in bc.THIN and n_ % 3 == 1))
     return jobs
 
 
